@@ -186,7 +186,10 @@ where
     // Dispatch by method
     let result = match options.method {
         Method::RK4 => {
-            let h = options.first_step.unwrap_or_else(|| (xend - x0) / 100.0);
+            // The fixed step: first_step if given (with the sign of the interval, as for the
+            // adaptive methods), else a hundredth of the interval.
+            let dir = if xend >= x0 { 1.0 } else { -1.0 };
+            let h = options.first_step.map_or((xend - x0) / 100.0, |h0| h0.abs() * dir);
             let solver = RK4::builder()
                 .max_steps(options.max_steps.unwrap_or(usize::MAX))
                 .build();
